@@ -404,8 +404,61 @@ fn zero_heap(alg: &str, a: &[&str], dump: bool) -> R {
     Ok(o)
 }
 
+/// Zeroizes `v` in place and returns the raw `size_of::<T>()` bytes of its storage afterwards.
+fn zeroized_image<T: Zeroize>(v: T) -> Vec<u8> {
+    let mut slot = MaybeUninit::<T>::uninit();
+    let p: *mut T = slot.as_mut_ptr();
+    unsafe {
+        p.write(v);
+        (*black_box(p)).zeroize();
+    }
+    let n = size_of::<T>();
+    let q = black_box(p as *const u8);
+    let mut out = vec![0u8; n];
+    for (i, o) in out.iter_mut().enumerate() {
+        *o = unsafe { core::ptr::read_volatile(q.add(i)) };
+    }
+    out
+}
+
+/// `zero.rawexplicit.<ty> POINT SCALAR`: the value is COMPUTED (so that it can be any internal representation, e.g. a
+/// non-canonical representation of the identity: small-order point times a clamped scalar), zeroized in place, and the raw
+/// bytes of its storage are returned.  The image after `zeroize()` must be one constant per type.
+fn zero_rawexplicit(ty: &str, a: &[&str]) -> R {
+    arity(a, 2)?;
+    let pb = hx::<32>(a[0])?;
+    let sb = hx::<32>(a[1])?;
+    let raw = match ty {
+        "edwards_clamped" => {
+            let p: EdwardsPoint = dec_ed(&CompressedEdwardsY(pb))?;
+            zeroized_image(p.mul_clamped(sb))
+        }
+        "edwards_mul" => {
+            let p: EdwardsPoint = dec_ed(&CompressedEdwardsY(pb))?;
+            zeroized_image(p * Scalar::from_bytes_mod_order(sb))
+        }
+        "edwards_sub" => {
+            // P - decompress(compress(P)) after a multiplication: identity reached by subtraction
+            let p: EdwardsPoint = dec_ed(&CompressedEdwardsY(pb))? * Scalar::from_bytes_mod_order(sb);
+            let q = dec_ed(&p.compress())?;
+            zeroized_image(p - q)
+        }
+        "ristretto_mul" => {
+            let p = dec_ris(&CompressedRistretto(pb))?;
+            zeroized_image(p * Scalar::from_bytes_mod_order(sb))
+        }
+        "scalar_mul" => {
+            zeroized_image(Scalar::from_bytes_mod_order(pb) * Scalar::from_bytes_mod_order(sb))
+        }
+        _ => return Err(BADREQ),
+    };
+    ok_hex(&raw)
+}
+
 pub fn zero_op(op: &str, a: &[&str], dump: bool) -> R {
-    if let Some(ty) = op.strip_prefix("zero.drop.") {
+    if let Some(ty) = op.strip_prefix("zero.rawexplicit.") {
+        zero_rawexplicit(ty, a)
+    } else if let Some(ty) = op.strip_prefix("zero.drop.") {
         zero_drop(ty, a)
     } else if let Some(ty) = op.strip_prefix("zero.explicit.") {
         zero_explicit(ty, a)
